@@ -56,15 +56,30 @@ def check(pid):
 def sizes(tier, quick, thorough):
     return thorough if tier == "thorough" else quick
 
+def model(r, spec, cfg_quick, cfg_thorough=None, timeout=600, workers=8):
+    cfg = cfg_thorough if (r.tier == "thorough" and cfg_thorough) else cfg_quick
+    res = core.tlc_model(spec, cfg, timeout=timeout, workers=workers, coverage=(r.tier == "thorough"))
+    r.add_model(res)
+    return res
+
+GENERAL_RULE = ("TLC: exhaustive bounded model(s) listed under 'models'; implementation: seeded scenario families "
+                "executed on the real library under virtual time, every recorded trace validated by TLC against the "
+                "contract (UtpTrace.tla); distinct = distinct script (configuration x schedule x fault seed)")
+
+def xfer_scripts(tier, seed, quick_n, thorough_n):
+    n = sizes(tier, quick_n, thorough_n)
+    return fam_xfer(seed, n) + fam_xfer_clean(seed, max(8, n // 5))
+
 @check("C01")
 def c01(tier, seed):
     r = Result("C01", tier, seed)
-    n = sizes(tier, 60, 1500)
-    scripts = fam_xfer(seed, n) + fam_xfer_clean(seed, max(10, n // 6))
+    model(r, "MCData", "MCData_quick", "MCData")
+    scripts = xfer_scripts(tier, seed, 60, 1200)
     r.samples = [sample_of(s) for s in scripts[:2]]
     r.add_validated(core.run_and_validate("C01", scripts))
-    return r.finish(rule_text="seeded random two-endpoint transfers (config grid x fair-lossy network); "
-                    "non-trivial = distinct script", required_cov=["C01.SegContiguous", "C01.ReadIsPrefix", "C01.SegStable"])
+    r.assumptions = ["payload identity rests on the projection function harness/src/stream.rs (unit-tested by corrupting bytes)",
+                     "single-threaded deterministic runtime: real-thread races between application calls and the connection task are not explored"]
+    return r.finish(rule_text=GENERAL_RULE, required_cov=["C01.SegContiguous", "C01.ReadIsPrefix", "C01.SegStable", "C01.NoGarbage"])
 
 def run(pid, tier, seed):
     if pid not in CHECKS:
